@@ -17,6 +17,7 @@ import (
 	"strings"
 	"sync"
 	"sync/atomic"
+	"unicode/utf8"
 
 	cloudstorage "cloud.google.com/go/storage"
 	"github.com/bluele/gcache"
@@ -103,6 +104,10 @@ func (g *GcsEmu) Handler(w http.ResponseWriter, r *http.Request) {
 	}
 	object := p.Object
 	bucket := p.Bucket
+	if !utf8.ValidString(object) {
+		g.gapiError(w, http.StatusBadRequest, "object names must be valid UTF-8")
+		return
+	}
 
 	if err := r.ParseForm(); err != nil {
 		g.gapiError(w, http.StatusBadRequest, fmt.Sprintf("failed to parse form: %s", err))
@@ -679,6 +684,10 @@ func (g *GcsEmu) handleGcsNewObjectResume(ctx context.Context, baseUrl HttpBaseU
 
 func (g *GcsEmu) finishUpload(ctx context.Context, baseUrl HttpBaseUrl, obj *storage.Object, contents []byte, bucket string, conds cloudstorage.Conditions) (*storage.Object, error) {
 	filename := obj.Name
+	if !utf8.ValidString(filename) {
+		// Such a name could be stored but not listed: the page token cannot carry it.
+		return nil, fmtErrorfCode(http.StatusBadRequest, "object names must be valid UTF-8")
+	}
 	bHash := md5.Sum(contents)
 	contentHash := bHash[:]
 	md5Hash := base64.StdEncoding.EncodeToString(contentHash)
